@@ -232,7 +232,9 @@ class BeapSearch(
             return False, []
         bank = self._bank[S]
         if cost_index in bank:
-            return False, bank[cost_index]
+            # an entry emptied by merge_program is a valid cost index without programs,
+            # not the end of a finite grammar
+            return len(bank[cost_index]) == 0, bank[cost_index]
         for x in self.query(S, cost_index):
             pass
         if cost_index in self._empties[S]:
